@@ -53,12 +53,31 @@ def run(ctx):
     def mc(stem):
         return lambda: ctx.tlc(stem + "MC", stem + "MC.cfg", workers=4 if thorough else 2, timeout=1500,
                                consts=MC_CONSTS.get(stem, {}).get(ctx.tier))
-    for stem, res in _parallel([(stem, mc(stem)) for _, stem in models]).items():
+    want_conc = any(m == "meter" for m, _ in models) and os.path.exists(os.path.join(vf.SPEC, "MeterConcMC.tla"))
+    conc_jobs = [("conc:" + tf, (lambda tf=tf: ctx.tlc("MeterConcMC", "MeterConcMC.cfg", workers=4, timeout=1500,
+                                                        consts={"MaxTime": 4 if thorough else 3, "TakeFirst": tf})))
+                 for tf in ("FALSE", "TRUE")] if want_conc else []
+    mc_results = _parallel([(stem, mc(stem)) for _, stem in models] + conc_jobs)
+    conc = {k[5:]: mc_results.pop(k) for k in list(mc_results) if k.startswith("conc:")}
+    for stem, res in mc_results.items():
         ctx.cov["states"] += res.distinct
         ctx.cov["transitions"] += res.states
         if res.violated or res.deadlock or not res.ok:
             raise vf.Inconclusive("model check of %sMC failed: %s deadlock=%s\n%s" %
                                   (stem, res.violated, res.deadlock, res.out[-3000:]))
+
+    # 1b. the concurrent meter design: the code's order (read, take the instant, commit-or-abort) keeps start <= end;
+    #     the hoisted-clock order must be refuted by TLC, otherwise the model has lost its teeth
+    if want_conc:
+        good, bad = conc["FALSE"], conc["TRUE"]
+        ctx.cov["states"] += good.distinct
+        ctx.cov["transitions"] += good.states
+        if good.violated or good.deadlock or not good.ok:
+            raise vf.Inconclusive("model check of MeterConcMC (TakeFirst=FALSE) failed: %s\n%s" % (good.violated, good.out[-3000:]))
+        if "StartNotAfterEnd" not in bad.violated:
+            raise vf.Inconclusive("MeterConcMC with TakeFirst=TRUE should violate StartNotAfterEnd:\n%s" % bad.out[-2000:])
+        ctx.cov["notes"].append({"MeterConcMC": "read-then-instant design keeps start<=end (%d states); instant-then-read "
+                                                "design refuted by TLC (Reset between instant and commit)" % good.distinct})
 
     # 2. walks
     def gen(stem):
@@ -108,6 +127,8 @@ def run(ctx):
         for b in bad:
             o = lines[b["line"] - 1]
             for clause in b["fails"]:
+                if clause.startswith("spec-"):   # the specification does not fit the code base: not a verdict
+                    raise vf.Inconclusive("model %s: %s (%s)" % (m, clause, {k: o[k] for k in ("op", "units") if k in o}))
                 detail = o.get("panic") or o.get("rpanic") or ""
                 ctx.violation("C20/%s/%s/%s" % (m, o["op"], clause),
                               "walk %d step %d of model %s: clause '%s' false on what the real code did%s" %
@@ -140,12 +161,17 @@ MANIFEST = {
             '= max(0, remaining - q) each in its own unit, cross-category conversion is an error and changes '
             'nothing, options populate the collection they name); fan speed = preset table with precedence '
             'changed preset > changed index > changed percentage; mode = relative steps modulo the value count; '
-            'enter/leave = two counters; meter = usage with start <= end; publication = version as an injective '
+            'enter/leave = two counters; meter = usage with start <= end (plus a concurrent model: RecordReading split '
+            'at "takes its instant" / "commits" with another client\'s Reset in between); publication = version as an injective '
             'function of the content, publish time, receipt and the acknowledge protocol. TLC checks the '
             'invariants of every state machine exhaustively over small constants, prints hundreds (quick) to '
             'thousands (thorough) of walks of 10-50 operations per model, and after the harness has run them on '
             'the real code evaluates the specification clauses on every logged line; recovered panics are '
-            'violations. Conformance on the generated walks plus bounded model checking of the design; not a '
+            'violations. Meter and publication run under a stepped harness clock that holds a call right after it has '
+            'read the clock and interposes another client\'s call before it commits (the overtaken call must be refused '
+            'without effect or leave consistent state); the vending unit alphabet is the whole enum (UNIT_UNSPECIFIED, '
+            'NO_UNIT included) with an all-pairs Convert sweep. '
+            'Conformance on the generated walks plus bounded model checking of the design; not a '
             'proof.',
     'note': 'Trusted base: TLC 1.8.0 evaluating the TLA+ predicates; the Go abstraction functions in '
             'harness/cmd/models (message <-> abstract record, times as clock ticks, amounts scaled to integer '
